@@ -522,7 +522,73 @@ def check_C01(tier, seed):
     return conclude(run, gate, obl)
 
 
-CHECKS = {'C01': check_C01, 'C18': check_C18, 'C02': check_C02, 'C14': check_C14, 'C16': check_C16, 'C17': check_C17}
+def check_C19(tier, seed):
+    run = Run('C19', tier, seed)
+    ctx = build_phase()
+    gate, obl = gate_and_ties(run, ctx, 'C19', seed, tier)
+    rnd = random.Random(seed * 1000003 + 19)
+    st = Stats()
+    envs = envs_for(rnd, tier, 14, 120)
+    per_env = 50 if tier == 'quick' else 150
+    tally = {'planted': 0, 'spec_defect': 0, 'accepted': 0, 'rejected': 0, 'accepted_ok': 0}
+    for env in envs:
+        st.schemas += 1
+        lines, planted = [], []
+        for _ in range(per_env):
+            d = rnd.randrange(len(env.msgs))
+            m = casegen.gen_msg(rnd, env, d, canon=rnd.random() < 0.5)
+            p = False
+            if rnd.random() < 0.65:
+                taken = set()
+                for _k in range(rnd.choice([1, 1, 1, 2, 3])):
+                    p = casegen.plant_defect(rnd, env, m, 0, taken) or p
+            l = 'CHECK ' + casegen.msg_text(m)
+            lines.append(l); planted.append(p)
+            st.add('CHECK:planted' if p else 'CHECK:clean', l)
+        c_out, m_out, bad, c_err, text = corr(run, ctx, env, lines, 'c19')
+        if bad or len(c_out) != len(lines):
+            if len(run.violations) < 3:
+                run.violation(report_disagreement(run, env.text(), lines, c_out, m_out, bad, c_err,
+                                                  'Impl <-> C correspondence (message_check, then size/pack/pack_to_buffer/unpack in a child) disagrees'), False)
+            if len(c_out) != len(lines):
+                continue
+        # the specification predicate of the theorem, evaluated by the extracted model
+        dl = ['DEFECT ' + l.split(' ', 1)[1] for l in lines]
+        rc, d_out, d_err = run_driver(ctx.model, env.text() + '\n'.join(dl) + '\n', 'c19d')
+        for i, (l, o) in enumerate(zip(lines, c_out)):
+            t = o.split()
+            spec = d_out[i] == 'D 1' if i < len(d_out) else False
+            tally['planted'] += planted[i]; tally['spec_defect'] += spec
+            msg = None
+            if len(t) < 3 or t[0] != 'C':
+                msg = 'unexpected driver output'
+            else:
+                if t[1] == '1':
+                    tally['accepted'] += 1
+                    if t[2] == 'OK':
+                        tally['accepted_ok'] += 1
+                    else:
+                        msg = 'the check accepted the message but serialising / re-parsing it ended with ' + t[2]
+                    if spec or planted[i]:
+                        msg = 'the message has a defect (generator planted=%s, defect_msg=%s) but the check accepted it' % (planted[i], spec)
+                else:
+                    tally['rejected'] += 1
+            if planted[i] and not spec and msg is None and i < len(d_out):
+                msg = 'harness inconsistency: generator planted a defect that Spec/Defect.v does not recognise'
+            if msg and len(run.violations) < 3:
+                rp = run.replay('oracle-%d.txt' % len(run.violations),
+                                '%s\n--- schema + case\n%s%s\n--- implementation output\n%s\n--- model defect_msg\n%s\n'
+                                % (msg, env.text(), l, o, d_out[i] if i < len(d_out) else '?'))
+                run.violation(rp, False)
+    run.cov['verdicts'] = tally
+    finish_stats(run, st, 'random schemas x random messages (half canonical, half merely well-formed), 65% with 1-3 defects planted at random '
+                          'depth (null required string/sub-message, null repeated element, bytes with length and no data in required / optional(has 0,1,2) / '
+                          'implicit-presence / oneof / repeated fields, count without array): CHECK on C (child process runs get_packed_size, pack, '
+                          'pack_to_buffer, unpack under ASan) and on the model; oracle: planted or defect_msg => rejected; accepted => child OK')
+    return conclude(run, gate, obl)
+
+
+CHECKS = {'C19': check_C19, 'C01': check_C01, 'C18': check_C18, 'C02': check_C02, 'C14': check_C14, 'C16': check_C16, 'C17': check_C17}
 
 
 def main():
